@@ -9,6 +9,7 @@ from concurrent.futures import ThreadPoolExecutor
 import vlib
 
 LEVEL = "model_checking"
+JVM = ["-XX:ParallelGCThreads=2"]
 MUT = ("Set", "Remove")
 
 
@@ -41,7 +42,7 @@ def replay(ctx, binary, jobs, workers):
             part = behs[w * size:(w + 1) * size]
             if part:
                 shards[w] += [{"nk": nk, "label": label}] + part
-    env = {"GNOROOT": vlib.REPO}
+    env = {"GNOROOT": vlib.REPO, "GOMAXPROCS": "3"}
 
     def one(shard):
         return vlib.run_driver(ctx, binary, [], behaviours=shard, timeout=3000, env_extra=env)
@@ -133,8 +134,8 @@ def run(ctx):
     def tlc(run_):
         label, cfg, nk, mode = run_
         if mode == "sim":
-            return vlib.run_tlc(ctx, "MCOrderedMap", cfg, mode="simulate", simulate=nsim, depth=71, tags=("TRACE",), timeout=3000)
-        return vlib.run_tlc(ctx, "MCOrderedMap", cfg, tags=("EDGE",) if mode == "edge" else (), workers=tw, timeout=3000)
+            return vlib.run_tlc(ctx, "MCOrderedMap", cfg, mode="simulate", simulate=nsim, depth=71, tags=("TRACE",), timeout=3000, jvm=JVM)
+        return vlib.run_tlc(ctx, "MCOrderedMap", cfg, tags=("EDGE",) if mode == "edge" else (), workers=tw, timeout=3000, jvm=JVM)
     with ThreadPoolExecutor(max_workers=len(runs)) as ex:
         results = list(ex.map(tlc, runs))
     jobs = []
